@@ -536,6 +536,30 @@ func H_C06_Maps_Shapes() {
 	verifReach("end")
 }
 
+// C10: whatever shape a map entry has (empty, partial, reversed), the string / bytes data decoded after it in the
+// same message does not alias the input
+func H_C10_Maps_AfterShape() {
+	pbC10Prelude()
+	shape := nondetInt("shape")
+	verifAssume(shape >= 0)
+	verifAssume(shape <= 5)
+	shape = verifConcretize(shape)
+	v := string(pbBytes1("v"))
+	ent := mapsEntry(shape, 5, v, 6)
+	in := protowire.AppendBytes(protowire.AppendTag(pbBuf(), 2, protowire.BytesType), ent)
+	// a second string-valued entry and a bytes-valued entry of another map
+	e2 := protowire.AppendString(protowire.AppendTag(protowire.AppendVarint(protowire.AppendTag(make([]byte, 0, 16), 1, protowire.VarintType), 9), 2, protowire.BytesType), string(pbBytes1("v2")))
+	in = protowire.AppendBytes(protowire.AppendTag(in, 2, protowire.BytesType), e2)
+	e3 := protowire.AppendBytes(protowire.AppendTag(protowire.AppendVarint(protowire.AppendTag(make([]byte, 0, 16), 1, protowire.VarintType), 3), 2, protowire.BytesType), pbBytes1("v3"))
+	in = protowire.AppendBytes(protowire.AppendTag(in, 3, protowire.BytesType), e3)
+	m := &Maps{}
+	err := m.Unmarshal(in)
+	verifAssert(err == nil, "Unmarshal accepts map entries of every shape followed by further entries")
+	verifAssertDecodesLikeRef(m, in, "Unmarshal result equals the message the reference runtime decodes")
+	verifAssertNoAlias(m, in, "safe-mode decoding does not alias the input buffer")
+	verifReach("end")
+}
+
 // one entry per map kind, canonical form; and a repeated key (last entry wins)
 func H_C06_Maps_Kinds() { c06MapsKinds(false) }
 func H_C10_Maps_Kinds() { c06MapsKinds(true) }
